@@ -394,7 +394,7 @@ def run_real(specs, p):
 
 class Check(PropertyCheck):
     id = 'C09'
-    lean_targets = ['RegionsVerif.Props.C09']
+    lean_targets = ['RegionsVerif.Props.C09', 'RegionsVerif.Props.C09Lex']
     namespaces = ['RegionsVerif.Props.C09']
     rule = ('lists of 1..8 regions: all ten DS9 shapes (+ regular polygon) x frames {image, icrs, fk5, fk4, galactic, '
             'ecliptic} x precision 1..12 x magnitudes 1e-3..1e6 (dyadic values incl. exact rounding ties, decimal-looking '
@@ -659,6 +659,48 @@ class Check(PropertyCheck):
                 'ecliptic': [{'equinox': 'J1975'}, {'equinox': 'J2050'}]}[frame])
         return spec
 
+    CASE_FAMILIES = {
+        'text': [['A', 'a'], ['NGC 1', 'ngc 1', 'Ngc 1'], ['M31 Core', 'm31 core', 'M31 CORE'], ['Src;x=Y # z', 'src;X=y # Z']],
+        'color': [['Red', 'red', 'RED'], ['Orange', 'orange'], ['#FF00aa', '#ff00AA', '#ff00aa']],
+        'fontname': [['Times', 'times', 'TIMES'], ['Helvetica', 'helvetica']],
+        'fontweight': [['Bold', 'bold'], ['Normal', 'normal']],
+        'tag': [['Grp A', 'grp a'], ['T1', 't1', 'T1']],
+        'label': [['Not DS9', 'not ds9']],
+    }
+
+    def _case_family(self, rng, specs):
+        key = rng.choice(['text', 'text', 'text', 'color', 'color', 'fontname', 'fontweight', 'tag', 'label'])
+        fam = rng.choice(self.CASE_FAMILIES[key])
+        mode = rng.choice(['case', 'case', 'case', 'equal', 'different'])
+        for i, sp in enumerate(specs):
+            if not expressible(sp):
+                continue
+            v = fam[i % len(fam)] if mode == 'case' else fam[0] if mode == 'equal' else \
+                fam[0] + (' %d' if key in ('text', 'tag', 'label') else 'x%d') % i
+            if rng.random() < 0.5 and mode == 'case':
+                v = rng.choice(fam)
+
+            def setk(which, k, val):
+                sp[which] = [kv for kv in sp[which] if kv[0] != k] + [[k, val]]
+            if key == 'text':
+                if sp['cls'] == 'text':
+                    sp['text'] = v
+                else:
+                    setk('meta', 'text', {'str': v})
+            elif key == 'tag':
+                setk('meta', 'tag', {'strs': [v, 'common']})
+            elif key == 'label':
+                setk('meta', 'label', {'str': v})
+            elif key == 'color':
+                sp['visual'] = [kv for kv in sp['visual'] if kv[0] not in ('facecolor', 'edgecolor')]
+                setk('visual', 'color', {'str': v})
+            elif key == 'fontname':
+                setk('visual', 'fontname', {'str': v})
+            else:
+                if not any(kv[0] == 'fontname' for kv in sp['visual']):
+                    setk('visual', 'fontname', {'str': 'times'})
+                setk('visual', 'fontweight', {'str': v})
+
     @staticmethod
     def _apply_kind(rng, spec):
         """give the pixel numbers of a region as Python int/float, NumPy float64/float32/int64/int32/int16 scalars
@@ -771,6 +813,10 @@ class Check(PropertyCheck):
                         s['meta'] = sm + [kv for kv in s['meta'] if kv[0] not in keys]
                         keys = {k for k, _ in sv}
                         s['visual'] = [kv for kv in s['visual'] if kv[0] not in keys] + sv
+            # the same string-valued key on EVERY region, the values equal up to letter case / exactly equal /
+            # really different: only exactly equal values may be hoisted, every region keeps its own spelling
+            if 2 <= nreg <= 4 and rng.random() < 0.25:
+                self._case_family(rng, specs)
             # the exclusion vocabulary in bulk
             if rng.random() < 0.12:
                 v = rng.choice([{'bool': False}, {'int': '0'}, {'bool': True}, {'int': '1'}])
